@@ -7,7 +7,9 @@ as the shared parser of a config and reached through Command.parse - each compar
 fresh parser gives.  Through Command.parse the MODE is a dimension of its own: given explicitly
 (True / False) or omitted, on a config whose lenient parsing was enabled, disabled or never touched -
 per request (a command of its own) or on one command for the whole history; the reference is a fresh
-parser with the explicit mode, or with the configured one when the mode is omitted.  Snapshots: the argv list handed to ArgvArgs, RawArgs.tokens and the format's
+parser with the explicit mode, or with the configured one when the mode is omitted.  Tokens (and the script name) may
+carry line breaks, tabs and other white space at either end or inside: they are characters of the token, the caller's
+list stays as it was and the raw arguments carry exactly its entries.  Snapshots: the argv list handed to ArgvArgs, RawArgs.tokens and the format's
 listings before/after every call (checked, not proved: Python object identity has no counterpart
 in the functional model).
 """
@@ -43,6 +45,11 @@ RULE = ("histories of 1-6 requests from a pool (C02 catalogue formats x adversar
         "through Command.parse: every pool line x mode {False, True, omitted} x config {untouched, enabled, disabled} as "
         "a single request, pairs of requests to ONE command with the config changed before or between them, and 60 % of the "
         "requests of the random histories that go through a command (one command per request or one for the history); "
+        "white space in the argv list: a line break / CR LF / tab / blank / other Unicode space at the end, at the start, "
+        "inside or as the whole of the LAST token, an earlier token or the script name (13 lines on 4 catalogue formats, "
+        "single requests and 2-3 request histories directly and through a command; 12 % of the requests of the random "
+        "histories) - the caller's list is compared before/after wrapping and after parsing, and the raw arguments must "
+        "carry exactly the list's entries; "
         "non-trivial = length >= 2 with an option set or an error in an earlier request; distinct = the history")
 TRUSTED_BASE = [
     "Lean 4.33 kernel; axioms within propext, Classical.choice, Quot.sound (audited per theorem on every run)",
@@ -52,7 +59,9 @@ TRUSTED_BASE = [
     "harness/props/c05.py, harness/parser_common.py: generators, snapshots, canonical encoding; int()/float() tables taken from CPython",
 ]
 ASSUMPTIONS = [
-    "non-mutation of argv / RawArgs.tokens / format listings is checked by snapshots on every generated request, not proved",
+    "non-mutation of argv / RawArgs.tokens / format listings is checked by snapshots on every generated request, not proved "
+    "(the argv list is snapshotted before ArgvArgs(argv), compared right after the wrapping and again after the parse; "
+    "RawArgs.tokens / script_name are compared with the list's entries, including entries with line breaks and other white space)",
     "float()/int() of CPython are parameters of the model (conversion tables computed by the running interpreter)",
 ]
 BATCH = 1000
@@ -98,6 +107,71 @@ def _command_cases(tier):
                                 {"spec": spec, "tokens": t2, "lenient": m2, "cfg": c2}], "via": "command"}
 
 
+# tokens that carry line breaks, tabs and other white space (a command line taken from a CRLF script, read line by
+# line from a file, handed over by another program): at the end, at the start, inside a token, or the whole token -
+# on the LAST token, on an earlier one, or on the script name.  They are characters of the token like any other.
+WS = ["\n", "\r\n", "\r", "\t", " ", "\n\r", "\x0b", "\x0c", "\u2028", "\u00a0", "\n\n"]
+WS_FORMS = ["end", "start", "inside", "alone"]
+WS_LINES = [(1, ["y", "z"]), (1, ["--foo", "x"]), (1, ["a", "--bar", "v"]), (1, ["--bar=v", "a"]), (1, ["-fb", "v", "p"]),
+            (2, ["p", "--num", "5"]), (2, ["q", "-o7"]), (2, ["--multi=a", "p", "q"]),
+            (4, ["5", "1.5", "-b", "true"]), (4, ["7", "2.5", "--opt=2.5"]), (3, ["server", "add", "h1"]),
+            (1, []), (1, ["y"])]
+
+
+def _decorate(t, ws, form):
+    if form == "end":
+        return t + ws
+    if form == "start":
+        return ws + t
+    if form == "inside":
+        return t[:max(1, len(t) // 2)] + ws + t[max(1, len(t) // 2):]
+    return ws
+
+
+def _ws_request(spec_i, tokens, pos, ws, form, lenient):
+    """pos: index of the decorated token, -1 = the last one, "script" = the script name"""
+    rq = {"spec": c02.CATALOGUE[spec_i], "tokens": list(tokens), "lenient": lenient}
+    if pos == "script":
+        rq["script"] = _decorate("prog", ws, form)
+    elif tokens:
+        rq["tokens"][pos] = _decorate(tokens[pos], ws, form)
+    else:
+        rq["script"] = _decorate("prog", ws, form)
+    return rq
+
+
+def _whitespace_cases(tier):
+    import itertools
+    quick = tier == "quick"
+    wss = WS[:5] if quick else WS
+    lines = [WS_LINES[i] for i in (0, 2, 5, 8, 11)] if quick else WS_LINES
+    for (si, toks), ws, form in itertools.product(lines, wss, WS_FORMS):
+        for pos in (-1, 0, "script"):
+            if pos == 0 and len(toks) < 2:
+                continue
+            for len_ in ((False,) if quick else (False, True)):
+                yield {"requests": [_ws_request(si, toks, pos, ws, form, len_)], "via": "direct"}
+    # the same list contents handed in twice / after another line, on one parser, directly and through a command
+    for (si, toks), ws in itertools.product(lines[:3], wss[:3] if quick else wss):
+        for via in ("direct", "command"):
+            a = _ws_request(si, toks, -1, ws, "end", False)
+            b = {"spec": c02.CATALOGUE[si], "tokens": list(toks), "lenient": False}
+            yield {"requests": [a, b], "via": via}
+            yield {"requests": [b, a, dict(a)], "via": via}
+
+
+def _sprinkle(rng, rq):
+    """one token of the request (or its script name) gets white space"""
+    ws, form = rng.choice(WS), rng.choice(WS_FORMS)
+    r = rng.random()
+    if not rq["tokens"] or r < 0.15:
+        rq["script"] = _decorate("prog", ws, form)
+        return
+    pos = len(rq["tokens"]) - 1 if r < 0.6 else rng.randrange(len(rq["tokens"]))
+    rq["tokens"] = list(rq["tokens"])
+    rq["tokens"][pos] = _decorate(rq["tokens"][pos], ws, form)
+
+
 def generate(tier, rng):
     import itertools
     pool = _pool()
@@ -106,6 +180,8 @@ def generate(tier, rng):
         for seq in itertools.product(range(0, len(pool), 2 if n == 3 else 1), repeat=n):
             yield {"requests": [pool[i] for i in seq], "via": "direct"}
     for case in _command_cases(tier):
+        yield case
+    for case in _whitespace_cases(tier):
         yield case
     nrand = 1500 if tier == "quick" else 25000
     for _ in range(nrand):
@@ -128,6 +204,9 @@ def generate(tier, rng):
                 if rng.random() < 0.6:
                     rq["lenient"] = rng.choice(MODES)
                     rq["cfg"] = rng.choice(CFGS)
+        for rq in reqs:
+            if rng.random() < 0.12:
+                _sprinkle(rng, rq)
         yield {"requests": reqs, "via": via}
 
 
@@ -176,9 +255,18 @@ def run_impl(case):
         if the_cmd is not None:
             the_cmd._args_format = None
         fmt = pc.build_format(rq["spec"])
-        argv = ["prog"] + list(rq["tokens"])
+        script = rq.get("script", "prog")
+        argv = [script] + list(rq["tokens"])
         argv_before = list(argv)
         raw = ArgvArgs(argv)
+        wrapped = []
+        if argv != argv_before:
+            wrapped.append("argv list (by wrapping it as raw arguments)")
+        # the raw arguments carry exactly the list's entries: the script name, and the tokens after it
+        if list(raw.tokens) != argv_before[1:]:
+            wrapped.append("raw args tokens are not the tokens of the argv list")
+        if raw.script_name != argv_before[0]:
+            wrapped.append("raw args script name is not the first entry of the argv list")
         tokens_before = list(raw.tokens)
         listing_before = _listing(fmt)
         if case["via"] in ("config", "command"):
@@ -211,8 +299,8 @@ def run_impl(case):
             except Exception as e:  # noqa
                 r = {"err": type(e).__name__}
         results.append(r)
-        m = []
-        if argv != argv_before:
+        m = list(wrapped)
+        if argv != argv_before and not wrapped:
             m.append("argv list")
         if list(raw.tokens) != tokens_before:
             m.append("raw args tokens")
@@ -293,4 +381,8 @@ def shrink(case):
         for j in range(len(t)):
             r2 = dict(rq[i])
             r2["tokens"] = t[:j] + t[j + 1:]
+            yield {"requests": rq[:i] + [r2] + rq[i + 1:], "via": case["via"]}
+    for i in range(len(rq)):
+        if "script" in rq[i]:
+            r2 = {k: v for k, v in rq[i].items() if k != "script"}
             yield {"requests": rq[:i] + [r2] + rq[i + 1:], "via": case["via"]}
